@@ -604,3 +604,103 @@ pub fn c10_blackbox(run: &mut Run, lost: &[Pos]) {
         run.acc.merge(a, &[]);
     }
 }
+
+// ------------------------------------------------------------------------------------------------
+// C11 (black box): the move PLAYED. The in-process part judges what the search hands back; what
+// is played is decided by the polling I/O thread, which takes the moves off the channel.
+// ------------------------------------------------------------------------------------------------
+
+/// roots: (position, mate-in-one root?, moves that allow the opponent a mate in one)
+pub fn c11_blackbox(run: &mut Run, roots: &[(Pos, bool, Vec<Mv>)]) {
+    let seed = run.seed;
+    let plain = match bb::build_plain() {
+        Ok(b) => b,
+        Err(e) => {
+            run.acc.inconclusive.push(e);
+            return;
+        }
+    };
+    if roots.is_empty() {
+        return;
+    }
+    let sessions = run.tier.pick(16usize, 160);
+    let per = run.tier.pick(24usize, 60);
+    let res = run_parallel(8, sessions, |sid| {
+        let mut acc = Acc::new();
+        let mut rng = Rng::stream(seed, 0xC11_B000 + sid as u64);
+        let mut s = match Sess::start(&plain, SpawnOpts::default(), false) {
+            Ok(s) => s,
+            Err(e) => {
+                acc.inconclusive.push(format!("session start failed: {}", e));
+                return acc;
+            }
+        };
+        for _ in 0..per {
+            let (p, mate1, losing) = &roots[rng.below(roots.len() as u64) as usize];
+            s.position_fen(p);
+            // short slices: the deadline falls while improvements are still streaming in
+            let ms = *rng.pick(&[1u32, 2, 2, 3, 3, 4, 5, 6, 8, 12, 20]);
+            let mut g = s.go(&slice_args(p.stm, ms, &mut rng), WATCHDOG);
+            let text = match &g.bestmove {
+                Some((t, _)) => t.clone(),
+                None => {
+                    acc.inconclusive.push("C11 black box: go not answered".into());
+                    return acc;
+                }
+            };
+            s.settle(&mut g, WATCHDOG);
+            acc.evaluations += 1;
+            let played = match parse_mv(&text) {
+                Some(m) if legal_moves(p).contains(&m) => m,
+                _ => continue, // C03's business
+            };
+            // lines printed before the allowance ended (their own time field, whole ms since the
+            // go, is below the plan): the iteration before the deepest such line had finished
+            let plan = g.plan_ms as u64;
+            let mut deepest_in_time = 0u64;
+            let mut witness = String::new();
+            for l in &g.info_lines {
+                if let Ok(i) = parse_info(l, true) {
+                    if i.time.map(|t| t < plan).unwrap_or(false) && i.depth > deepest_in_time {
+                        deepest_in_time = i.depth;
+                        witness = l.clone();
+                    }
+                }
+            }
+            let case = json!({"kind": "session", "property": "C11", "script": [format!("position fen {}", p.to_fen6(0, 1)), g.args.clone()], "transcript_tail": s.eng.transcript_text(12)});
+            if *mate1 {
+                if acc.distinct.insert(hash64(&format!("bb1|{}|{}", p.to_fen(), g.args))) {
+                    acc.feature("blackbox_mate_in_1_root");
+                }
+                if deepest_in_time >= 2 {
+                    acc.feature("blackbox_mate_in_1_root_first_iteration_finished_in_time");
+                    if !is_checkmate(&apply(p, played)) {
+                        acc.violation(
+                            format!("C11|played-not-mate|{}|{}", p.to_fen(), g.args),
+                            format!("real binary: {} has a mate in one, '{}' (plan {} ms) let the search finish its first iteration in time (line {:?} was printed before the allowance ended), yet the move played is {} which does not give checkmate", p.to_fen(), g.args, plan, witness, played),
+                            case,
+                        );
+                    }
+                }
+            } else {
+                if acc.distinct.insert(hash64(&format!("bb2|{}|{}", p.to_fen(), g.args))) {
+                    acc.feature("blackbox_avoidable_mate_root");
+                }
+                if deepest_in_time >= 3 {
+                    acc.feature("blackbox_avoidable_mate_root_second_iteration_finished_in_time");
+                    if losing.contains(&played) {
+                        acc.violation(
+                            format!("C11|played-into-mate|{}|{}", p.to_fen(), g.args),
+                            format!("real binary: on {} some moves allow a mate in one and others do not, '{}' (plan {} ms) let the search finish its second iteration in time (line {:?} was printed before the allowance ended), yet the move played is {} which allows mate in one", p.to_fen(), g.args, plan, witness, played),
+                            case,
+                        );
+                    }
+                }
+            }
+        }
+        acc
+    });
+    for a in res {
+        run.acc.merge(a, &[]);
+    }
+}
